@@ -210,6 +210,18 @@ func errorFlow(rr *RuleRun, c *Ctx, info *types.Info, r declRef, g *FuncCFG, nam
 		if !ok {
 			return nil
 		}
+		// 'if v, done, err := f(); done { return v, err }': the error comes with a flag that says whether it is
+		// meaningful, and the branch on that flag reads it — a correlated pair this analysis does not model
+		correlated := false
+		if is, ok := c.Parent(as).(*ast.IfStmt); ok && is.Init == ast.Stmt(as) {
+			if co := objOf(info, is.Cond); co != nil && !isErrorType(co.Type()) {
+				for _, l := range as.Lhs {
+					if objOf(info, l) == co {
+						correlated = true
+					}
+				}
+			}
+		}
 		for _, l := range as.Lhs {
 			id, ok := l.(*ast.Ident)
 			if !ok || id.Name == "_" {
@@ -218,6 +230,18 @@ func errorFlow(rr *RuleRun, c *Ctx, info *types.Info, r declRef, g *FuncCFG, nam
 			o := objOf(info, id)
 			if o == nil || !isErrorType(o.Type()) {
 				continue
+			}
+			if correlated {
+				readInBody := false
+				ast.Inspect(c.Parent(as).(*ast.IfStmt).Body, func(m ast.Node) bool {
+					if mid, ok := m.(*ast.Ident); ok && info.Uses[mid] == o {
+						readInBody = true
+					}
+					return true
+				})
+				if readInBody {
+					continue
+				}
 			}
 			src := exprStr(call.Fun)
 			out = append(out, pendErr{o, as.Pos(), src})
